@@ -61,6 +61,8 @@ CONSTANTS NOps,            \* operators (= workers) of the running job
           RestoreNs,       \* operator counts a restore may choose from
           Dev_ListLatest,  \* DESIGN 7 #23
           RetainKeepsNewer,
+          SpAfter,         \* the savepoint is requested only after checkpoint SpAfter has been published (0 for
+                           \* exhaustive runs; generation spreads the request over the job's life with it)
           MaxLen           \* behaviour length bound (generation; large for exhaustive runs)
 
 VARIABLES delivered,  \* events 1..delivered have been applied (event e by operator Owner(e))
@@ -215,7 +217,7 @@ Tick ==
                  nsp, nspErr, SpVars, phase, restored>>
 
 Sp ==
-  /\ phase = "run" /\ nsp = 0
+  /\ phase = "run" /\ nsp = 0 /\ completed >= SpAfter
   /\ nsp' = 1
   /\ IF pending.id # 0
      THEN \* fold: the in-progress checkpoint is promoted, nothing is started
